@@ -27,7 +27,7 @@ LEVEL_NOTE = ('Trusted: Lean kernel, py2lean subset semantics, NumPy slicing/bro
               'Field(data=[]) whose cached extent is (0,0,0,0) — the model treats it as the zero field; it is a sentinel that the only caller '
               '(Plane.multiply) drops, and the composition cases (product -> mul/merge/reduce/insert) drop it the same way.')
 TECHNIQUE = 'Lean 4 proof (omega/induction) over translator-regenerated index kernel + hand model with differential correspondence'
-GEN = ['Extent', 'FieldIdx', 'FieldMerge', 'FieldDispatch']
+GEN = ['Extent', 'FieldIdx', 'FieldMerge', 'FieldDispatch', 'FieldAccum']
 OPS = ['C06']
 RULE = ('cases: extent pairs, bounding boxes (boundary) of 1..5 fields incl. wholly negative, field products (array/array, '
         'scalar/array, scalar/scalar, 0-d), merges (_merge and public merge with both enforce_overlap values, equal/different '
@@ -69,7 +69,8 @@ ASSUMPTIONS = ['merge/reduce never raise (mergeZ_total, reduce_defined, reduceZ_
                'and __mul__ drops pixelscale by design of the code (not judged)',
                'the tests generated into Gen.FieldDispatch are consumed by the models: Fld.mul (size test, offset comparison), disjoint '
                'and disjointZ (step constants), GroupZ.out / overlapL / mergePublic (thresholds); closed forms: Fld.mul_closed, '
-               'disjoint_succ_some, GroupZ.out_eq, overlapL_two/many, mergePublic_eq. The container type of an offset (list / tuple / '
+               'disjoint_succ_some, GroupZ.out_eq, overlapL_two/many, mergePublic_eq; insertArr / insertArrMode evaluate the generated '
+               'accumulation terms of insert (Gen.FieldAccum; insertTerm_eq, insert_accum_spec, insert_mode_eq). The container type of an offset (list / tuple / '
                'ndarray) enters the translation of _mul_scalar as a tag that np.array_equal ignores (mul_dispatch_spec); the model '
                'itself has integer offsets only, the harness draws the container types']
 
@@ -624,7 +625,7 @@ def impl(c):
                    'side': {'mutated': _snap([Ff]) != before, 'aliased': bool(np.shares_memory(out, Ff.data))}}
             # same field object into a fresh copy of the target: same increment
             out2 = out0.copy(); LF.insert(Ff, out2, intensity=c['intensity'], weight=c['weight'])
-            res['side']['repeat_equal'] = bool(np.array_equal(out2, out))
+            res['side']['repeat_equal'] = _arr_json(out2) == _arr_json(out)     # |z|^2 goes through hypot: compare up to the ulp-rounding _arr_json removes
             return res
     except Exception as e:
         return {'exc': type(e).__name__, 'msg': str(e)[:200]}
